@@ -1167,7 +1167,8 @@ func rC18Freshness(w *World, r *Report) {
 	ig := buildIG(syn)
 	okAll, _ := ig.mustPass(ig.edgeStart(hdr, 0), func(in ssa.Instruction) bool {
 		c, ok := in.(*ssa.Call)
-		return ok && calleeName(c) == "builtin:append"
+		// collected in a list that is joined afterwards, or written straight into a Builder
+		return ok && (calleeName(c) == "builtin:append" || calleeName(c) == "(*strings.Builder).WriteString")
 	}, func(in ssa.Instruction) bool { return in.Block() == hdr && in == hdr.Instrs[0] })
 	for b := range naturalLoop(hdr) {
 		for _, sc := range b.Succs {
@@ -1176,7 +1177,7 @@ func rC18Freshness(w *World, r *Report) {
 			}
 		}
 	}
-	joined := len(callsTo(syn, "strings.Join")) > 0
+	joined := len(callsTo(syn, "strings.Join")) > 0 || len(callsTo(syn, "(*strings.Builder).String")) > 0
 	ru.Check(okAll && joined, "Synopsis/aliases", w.IPos(hdr.Instrs[0]), "every alias is listed", "some aliases are left out of the synopsis")
 }
 
